@@ -214,7 +214,7 @@ async def run(ctx):
                 await check_case(ctx, case)
                 ctx.count("spelling_variants")
     cond = cond_factory(rng)
-    for i in range(ctx.budget(450, 45_000)):
+    for i in range(ctx.budget(900, 45_000)):
         parts = GA.gen_parts(rng, cond, max_parts=4)
         case = build(parts, rng)
         await check_case(ctx, case)
